@@ -294,6 +294,19 @@ def rule_DELEG(ctx):
             r.fail(f.key, f'Array.{nm} -> self.data.{nm}', f'Array.{nm} must be exactly its data\'s {nm}', loc=f.loc())
         else:
             r.ok(f'Array.{nm}')
+    # ... and nothing else in Array looks at the padded serialisation: with trailing bits (a partial item at the end) tobytes() has
+    # zero-filled bits that are not item data, so items, counts and comparisons taken from it see an extra item
+    for nm, f in sorted(arr.methods.items()):
+        if nm in ('tobytes', 'tofile', '__bytes__'):
+            continue
+        for x in own_walk(f.node):
+            padded = (isinstance(x, ast.Call) and isinstance(x.func, ast.Attribute) and x.func.attr == 'tobytes' and ast.unparse(x.func.value) == 'self.data') or \
+                (isinstance(x, ast.Call) and isinstance(x.func, ast.Name) and x.func.id in ('bytes', 'bytearray') and x.args and ast.unparse(x.args[0]) == 'self.data') or \
+                (isinstance(x, ast.Attribute) and x.attr == 'bytes' and ast.unparse(x.value) == 'self.data' and isinstance(x.ctx, ast.Load))
+            if padded:
+                r.fail(f.key, x, f'Array.{nm} reads the zero-padded serialisation of its data: with trailing bits the padding turns into item data '
+                       '(an extra item, a wrong count)', loc=f.loc(x), extra={'props': ['C14', 'C17', 'C19']})
+    r.ok('Array: padded serialisation only in tobytes/tofile')
     for c in FAMILY:
         for f in m.winner(c, '__bytes__'):
             if 'self.tobytes()' not in ast.unparse(f.node):
